@@ -406,3 +406,8 @@ func (c *Chain) deliverAsTx(msg sdk.Msg) (*sdk.Result, error) {
 	}
 	return &sdk.Result{}, nil
 }
+
+// The production binary sets the "comdex" bech32 prefixes before anything else
+// (cmd/comdex/main.go); the contract-sender guards compare bech32 strings, so
+// the harness must run under the same configuration.
+func init() { chain.SetAccountAddressPrefixes() }
